@@ -182,6 +182,11 @@ NAMED = ['Oxidation', 'Phospho', 'Acetyl', 'Carbamidomethyl', 'Methyl', 'Deamida
          'M:L-methionine sulfoxide']
 TAGGED = ['Oxidation|INFO:ok', 'Phospho#g1', '#g1', 'Oxidation#s1(0.75)', 'Acetyl|Obs:+42.010565', 'Obs:+17.05', 'U:+15.9949',
           'INFO:note|Formula:CH2']
+# '|' alternatives in every order: mass-only first, composition-bearing first, INFO first, tags, three alternatives
+ALTS = ['Obs:+42.5|Acetyl', 'Acetyl|Obs:+42.5', '+42.5|Acetyl', 'Acetyl|+42.5', 'INFO:x|Acetyl', 'INFO:x|Obs:+42.5|Acetyl',
+        'Obs:+42.5|INFO:x', 'Formula:C2H2O|Obs:+1', 'Obs:+1|Formula:C2H2O', 'Glycan:Hex|+5', '+5|Glycan:Hex', 'Acetyl#g1|+5',
+        '+5#g1|Acetyl', 'Oxidation|U:+15.99', 'U:+15.99|Oxidation', 'INFO:a|INFO:b|Phospho', 'Phospho#s1(0.5)|Obs:+80|INFO:z',
+        '-17.5|Formula:H-3N-1', 'Formula:H-3N-1|-17.5', 'INFO:q|+3.25', 'Obs:+3.25|U:Methyl|Formula:CH2']
 ODD = ['INFO:note', 'Unimod:999999', 'Formula:Xx2', 'nonsense']
 ISOTOPES = ['13C', '15N', '18O', 'D', 'T', '17O', '34S', '2H']
 ADDUCT_IONS = [('H', '+'), ('Na', '+'), ('K', '+'), ('Li', '+'), ('Mg', '2+'), ('Ca', '2+'), ('Cl', '-'), ('I', '-'), ('e', '-')]
@@ -256,6 +261,8 @@ def gen_value(rng, kinds):
         return rng.choice(forms)
     if k == 'tagged':
         return rng.choice(TAGGED)
+    if k == 'alts':
+        return rng.choice(ALTS)
     if k == 'odd':
         return rng.choice(ODD)
     raise KeyError(k)
@@ -334,6 +341,13 @@ def gen_annotation(rng, residues=RES24, min_len=1, max_len=15, kinds=APRIORI, p=
         a._charge = rng.choice([1, 2, 3, -1, -2, 4])
         if rng.random() < 0.4:
             a._charge_adducts = [Mod(gen_adducts(rng), 1)]
+            r = rng.random()
+            if r < 0.15:      # several [..] groups: all of them count
+                a._charge_adducts.append(Mod(gen_adducts(rng), 1))
+            elif r < 0.2:     # a numeric group is an invalid charge adduct
+                a._charge_adducts = [Mod(rng.choice([1, 2.5]), 1)]
+            elif r < 0.23:
+                a._charge_adducts = []
     return a
 
 
